@@ -109,7 +109,11 @@ bool drive_real(P& p, const Env& e, uint32_t fseed, Out& o, Result& res, const c
     size_t fidx = 0;
     for (int fr : frames) {
         if (fidx++ == copy_at) {
-            cur = std::make_unique<P>(*cur);   // copy-construct; the original is destroyed: the copy must carry the complete state
+            if ((hz >> 32) & 1) {
+                cur = std::make_unique<P>(*cur);   // copy-construct; the original is destroyed: the copy must carry the complete state
+            } else {
+                cur = std::make_unique<P>(std::move(*cur));   // move-construct: the successor must take over the complete state
+            }
             res.inc("fault.copied_mid_stream");
         }
         try {
